@@ -184,6 +184,44 @@ theorem load_inv {base : Node} {m : Mach U} (st : List Bool) (hi : Inv base m) (
       · intro _; exact hi
     · intro h; exact absurd h (World.fail'_errX _ _)
 
+/-- `load` leaves no request mark on an instance that carried none (all four activation combinations, every
+buffer the model accepts) … -/
+theorem load_noMarks {base : Node} {m : Mach U} (st : List Bool) (hi : Inv base m) (hn : m.root.NoMarks)
+    (he : (m.load st).w.err = none) : (m.load st).root.NoMarks := by
+  revert he
+  unfold load
+  split
+  · intro h; exact absurd h (World.fail'_errX _ _)
+  · split
+    · next hm => intro he; exact loadActive_noMarks _ (hi.live hm).live.act he
+    · split
+      · intro he; exact loadEnter_noMarks _ hn he
+      · intro h; exact absurd h (World.fail'_errX _ _)
+  · split
+    · split
+      · intro _; exact (finalExit_inv hi.shape hi.good hi.act_or_clean).2
+      · intro _; exact hn
+    · intro h; exact absurd h (World.fail'_errX _ _)
+
+/-- … and on an ACTIVATED instance whatever marks it carried: `R_::load` starts with `clearRequests()`, the
+image of an instance that is not activated makes it `finalExit`. -/
+theorem load_active_noMarks {base : Node} {m : Mach U} (st : List Bool) (hi : Inv base m)
+    (hm : m.root.machineActive = true) (he : (m.load st).w.err = none) : (m.load st).root.NoMarks := by
+  revert he
+  unfold load
+  split
+  · intro h; exact absurd h (World.fail'_errX _ _)
+  · rw [if_pos hm]; intro he; exact loadActive_noMarks _ (hi.live hm).live.act he
+  · split
+    · intro _; exact (finalExit_inv hi.shape hi.good hi.act_or_clean).2
+    · intro h; exact absurd h (World.fail'_errX _ _)
+
+/-- `replayEnter` of an empty history does nothing to the registry -/
+theorem replayEnter_nil_root (m : Mach U) (ts : List Transition) (h : ts.isEmpty = true) :
+    (m.replayEnter ts).1.root = m.root := by
+  obtain ⟨m0, r1, ar, e, h0, _, _, _, heq⟩ := replayEnter_spec m ts
+  rw [heq, if_pos h, h0]
+
 /-! ### one step, a run -/
 
 theorem feed_inv {base : Node} {m : Mach U} (ds : List (Decision U)) (rng : List U) (hi : Inv base m) :
@@ -298,14 +336,16 @@ theorem run_inv {base : Node} : (steps : List (ApiStep U)) → (m : Mach U) → 
 
 /-! ### where no request marks remain
 
-`NoMarks` (hence `Settled` / `Idle` of Proofs/Wf.lean) is re-established by every operation below; it is
-NOT by `replayEnter` when that returns `false` on a non-empty history (`Props.C01.stale_marks_witness`),
-and it is not proved here for `load` and `replayTransitions` (the former needs "the marks laid down by
-`loadRequested` are all consumed by the commit pass", see Proofs/SerialLoad.lean of C08; the latter
-"equal marks ⇒ `marksDiffer = false`" for the unchanged case). -/
+`NoMarks` (hence `Settled` / `Idle` of Proofs/Wf.lean) is re-established or kept by every operation except ONE:
+`replayEnter` of a non-empty history that answers `false` leaves the marks of its initial resolution
+(`Props.C01.stale_marks_witness`).  In particular it is kept by `load` (`load_noMarks`: the marks laid down by
+`loadRequested` are all consumed by the commit / enter pass, Proofs/LoadMarks.lean) and by `replayTransitions`
+(`replayTransitions_noMarks`: `true` ends with `clearRequests()`, `false` means `registry == backup`). -/
 
+/-- the calls that leave no request mark on an instance that carried none: all but a `replayEnter` of a
+non-empty history (which does so only when it answers `true`: `replayEnter_inv`) -/
 def _root_.Hfsm.Op.marksSafe : Op U → Bool
-  | .load _ | .replayTransitions _ | .replayEnter _ => false
+  | .replayEnter ts => ts.isEmpty
   | _ => true
 
 theorem step_noMarks {base : Node} {m : Mach U} (s : ApiStep U) (hi0 : Inv base m) (hn : m.root.NoMarks)
@@ -361,9 +401,21 @@ theorem step_noMarks {base : Node} {m : Mach U} (s : ApiStep U) (hi0 : Inv base 
   | setTask sid b => intro _; simpa using hn1
   | planAppend rid t => intro _; exact hn1
   | planClear rid => intro _; simpa using hn1
-  | load bits => rw [hs] at hop; cases hop
-  | replayTransitions ts => rw [hs] at hop; cases hop
-  | replayEnter ts => rw [hs] at hop; cases hop
+  | load bits => intro he; exact load_noMarks bits hi hn1 he
+  | replayTransitions ts =>
+    dsimp only; split
+    · next hm =>
+      intro he
+      have := replayTransitions_noMarks ts (hi.live hm) he
+      cases hb : (m1.replayTransitions ts).2
+      · exact this.2 hb hn1
+      · exact this.1 hb
+    · intro h; exact absurd h (violate_err _ _)
+  | replayEnter ts =>
+    rw [hs] at hop
+    dsimp only; split
+    · intro h; exact absurd h (violate_err _ _)
+    · intro _; rw [replayEnter_nil_root m1 ts hop]; exact hn1
 
 end Mach
 end Hfsm
